@@ -51,8 +51,26 @@ def _init(modname):
     from .common import setup_paths, silence_fds
     setup_paths()
     silence_fds()
+    _linecov()
     _mod = importlib.import_module(modname)
     signal.signal(signal.SIGALRM, _alarm)
+
+
+def _linecov():
+    """Diagnostic only (tools/linecov.sh): with MC_LINECOV=<dir> every worker records which lines of rockit it executes,
+    so that library code no enumerated state ever reaches (a hole in an alphabet) can be listed.  Never set by a check."""
+    d = os.environ.get("MC_LINECOV")
+    if not d:
+        return
+    import coverage
+    from multiprocessing import util
+    from .common import REPO
+    cov = coverage.Coverage(data_file=os.path.join(d, ".coverage"), data_suffix=True, include=[os.path.join(REPO, "rockit", "*")])
+    cov.start()
+
+    def _save():
+        cov.stop(); cov.save()
+    util.Finalize(None, _save, exitpriority=100)
 
 
 def _run(case):
